@@ -3,6 +3,8 @@ from __future__ import annotations
 from core import Case, Failure
 import dcgen
 import rvgen
+import impl as implmod
+import rvasmgen
 import tagref
 import props.c02 as c02
 
@@ -17,6 +19,7 @@ ASSUMPTIONS = ["as C03"]
 
 
 def cases(rng, tier):
+    yield from load_cases(rng, tier)
     n = 300 if tier == "quick" else 5000
     for _ in range(n):
         yield dcgen.gen_case(rng, forced=False, accepted_only=True, dump_every=False)
@@ -29,6 +32,53 @@ def cases(rng, tier):
     for i in range(40 if tier == "quick" else 600):
         # print-string calls read through the data cache without being counted; loads/stores around them are counted once
         yield rvgen.ecall_case(rng, "five" if i % 2 else "single", hazard=True, trace=0, run=400, dspec=rvgen.penalty_cache_spec(rng, "d"), suite="sim-dcache")
+
+
+LOAD_TEXTS = [
+    '.data\nmsg: .string "Hi!"\nn: .word 7, 8\n.text\nla a0, msg\nli a7, 4\necall\nlw t0, n\nlw t1, n[1]\nadd t2, t0, t1\nsw t2, n, t3',
+    '.data\ne: .string ""\nb: .byte 1, 2, 3\nh: .half 500, -2\ns: .string "abcd"\nz: .zero 3\n.text\nlbu t0, b[2]\nlh t1, h[1]\nla a0, s\nli a7, 4\necall\nsw t0, z[1], t2\nlw t3, z[1]',
+    '.text\nlw t0, w\nlw t1, w[3]\nsb t0, q, t2\nlbu t4, q\n.data\nw: .word 1, 2, 3, 4, 5, 6, 7, 8, 9\nq: .string "0123456789abcdef"',
+    '.data\nlong: .string "The quick brown fox"\nv: .word 0x12345678\n.text\nlw t0, v\nla a0, long\nli a7, 4\necall\nlw t1, v',
+]
+
+
+def load_cases(rng, tier):
+    """programs with a data segment LOADED FROM TEXT into simulations built from cache options: the preload must not be
+    counted (accesses, hits, cycles stay 0), must be complete, and the run must count as in the other mode"""
+    for text in LOAD_TEXTS:
+        for k in range(3 if tier == "quick" else 12):
+            d = rvgen.penalty_cache_spec(rng, "d")
+            for mode in ("single", "five"):
+                lines = [f"sim.new {mode} 1 {d} -", f"sim.load {rvasmgen.hx(text)}", "sim.snap", "sim.run 400", "sim.snap"]
+                yield Case("sim-load-dcache", lines, None, {"mode": mode, "text": text, "d": d})
+
+
+def _load_oracle(c):
+    fails = []
+    snaps = [o for l, o in zip(c.lines, c.impl_out) if l == "sim.snap"]
+    if len(snaps) < 2 or not c.impl_out[1].startswith("ok"):
+        return fails
+    d0 = rvgen.parse_snap(snaps[0])
+    if d0["mem"].startswith("dc|"):
+        h, a, _ = d0["mem"].split("|")[1].split()
+        if (int(h), int(a), int(d0["cyc"])) != (0, 0, 0):
+            return [Failure("oracle", PROP, f"loading the program (its data segment) was counted: hits {h}, accesses {a}, cycles {d0['cyc']} before the first step", "dcache:preload-counted")]
+    # the same text in the other mode: same counters; without a data cache: same results
+    other = "five" if c.meta["mode"] == "single" else "single"
+    res = {}
+    for name, new in (("this", c.lines[0]), ("other", c.lines[0].replace(f"sim.new {c.meta['mode']}", f"sim.new {other}")),
+                      ("flat", f"sim.new {c.meta['mode']} 1 - -")):
+        im = implmod.Impl()
+        out = [im.run(l) for l in [new] + c.lines[1:]]
+        res[name] = rvgen.parse_snap(out[-1]) if out[-1].startswith("pc=") else None
+    if all(res.values()):
+        ta, tb = res["this"]["mem"].split("|")[1], res["other"]["mem"].split("|")[1]
+        if ta != tb:
+            return [Failure("oracle", PROP, f"data-cache counters (hits accesses last) {ta} in {c.meta['mode']} mode, {tb} in {other} mode", "modes:dcache-counters")]
+        for k in ("regs", "out", "exit"):
+            if res["this"][k] != res["flat"][k]:
+                return [Failure("oracle", PROP, f"{k} differs from the run without data cache", "dcache:changes-result")]
+    return fails
 
 
 def nontrivial(c):
@@ -47,6 +97,8 @@ def measure(c, stats):
 
 
 def oracle(c):
+    if c.suite == "sim-load-dcache":
+        return _load_oracle(c)
     fails = []
     if c.lines and c.lines[0].startswith("dc.new"):
         h = dcgen.parse_header(c.lines[0])
